@@ -5,7 +5,7 @@ import ast
 import itertools
 from typing import Any, Dict, List, Optional, Set, Tuple
 
-from sa import AnalysisError
+from sa import AnalysisError, StructuralViolation
 from sa import fd
 from sa.cf import cfg_of
 from sa.pm import FuncInfo, call_name, norm, self_attr, walk_local_ordered
@@ -50,9 +50,10 @@ def ingest_anatomy(ctx: Any) -> Dict[str, Any]:
                     if k:
                         an[k].append(c)
                         an['phase_loops'][id(c)] = lp
+    what = {'notify': 'calls the update listeners with the (new, previous) pairs', 'complete': 'calls the update listeners a second time once the cache has been updated', 'add': 'adds the new records to the cache', 'remove': 'removes the withdrawn records from the cache', 'mark': 'marks the older records of a flushed rrset to expire'}
     for k in ('notify', 'complete', 'add', 'remove', 'mark'):
         if not an[k]:
-            raise AnalysisError(f'anchor vanished: no `{k}` call in {f.where()}')
+            raise StructuralViolation(f.module.rel, f.qual, f'no `{k}` step in the ingestion routine', f'the ingestion routine {what[k]}', 'no such call is left in it')
     an['updates'] = []
     for c in an['notify']:
         last = c.args[-1] if c.args else None
@@ -118,6 +119,19 @@ def pair_per_live_record(ctx: Any, R: str) -> List[Ob]:
         oc, und = fd.run_paths(ctx.prog, f.module, cfg, atoms, eff_a, start=head, stop=lambda n: n is head, loop_bound=1, for_iter=lambda n, e: True)
         seqs = {tuple(sorted(x for x in strip_ret(t) if x in ('PAIR', 'ADD'))) for t in oc}
         obs.append(ob(R, f, f'new live {nm} record', 'it is reported to the listeners and queued for the cache', seqs == {('ADD', 'PAIR')}, f'effects on the feasible paths: {sorted(seqs)}'))
+    # a withdrawn record (TTL 0 / expired on arrival): reported and queued for removal exactly when a cached copy exists,
+    # ignored otherwise -- never added
+    rems = set(an['removes'])
+
+    def eff_r(node: Any, evl: Any) -> List[Any]:
+        return eff_a(node, evl) + ['REM' for c in fd.node_calls(node, evl) if call_name(c) in MUTATORS and isinstance(c.func, ast.Attribute) and isinstance(c.func.value, ast.Name) and c.func.value.id in rems]
+
+    for cached in (True, False):
+        atoms = {'.is_expired()': True, '.async_get_unique()': fd.Sym('entry') if cached else None, '.ttl': 0, '.type': 1, '.unique': False}
+        oc, und = fd.run_paths(ctx.prog, f.module, cfg, atoms, eff_r, start=head, stop=lambda n: n is head, loop_bound=1, for_iter=lambda n, e: True)
+        seqs = {tuple(sorted(x for x in strip_ret(t) if x in ('PAIR', 'ADD', 'REM'))) for t in oc}
+        want = {('PAIR', 'REM')} if cached else {()}
+        obs.append(ob(R, f, f'withdrawn record (TTL 0), {"cached copy exists" if cached else "not cached"}', 'it is reported to the listeners and queued for removal from the cache' if cached else 'it is ignored (nothing reported, nothing queued)', seqs == want, f'effects on the feasible paths: {sorted(seqs)}'))
     if R.split('.')[0] not in ('C05', 'C06'):
         obs.extend(sighting_obligations(ctx, R))
     return obs
@@ -330,6 +344,10 @@ def order(ctx: Any) -> List[Ob]:
     from .c11 import fresh_message_obligations
 
     obs.extend(fresh_message_obligations(ctx, R))
+    # every valid response that passed the duplicate guard reaches this routine
+    from .c16 import dispatch_obligations
+
+    obs.extend(dispatch_obligations(ctx, R, 'response'))
     return obs
 
 
@@ -356,6 +374,21 @@ def snapshot(ctx: Any) -> List[Ob]:
                 )
             )
             obs.append(ob(R, f, it, 'listener callbacks run over a snapshot of the listener set', copy))
+            # `every registered update listener is called exactly once`: each trip of the loop calls the listener of that trip,
+            # whatever the earlier ones did (no early exit, no skipped listener)
+            if isinstance(lp, ast.For) and isinstance(lp.target, ast.Name) and f.name in ('async_updates', 'async_updates_complete'):
+                want_cb = 'async_update_records' if f.name == 'async_updates' else 'async_update_records_complete'
+                lv = lp.target.id
+                cfg_l = cfg_of(f.node)
+                head_l = next(n for n in cfg_l.nodes if n.kind == 'for' and n.ast is lp)
+
+                def eff_l(node: Any, evl: Any, lv: str = lv, want_cb: str = want_cb) -> List[Any]:
+                    return ['CALL' for c in fd.node_calls(node, evl) if call_name(c) == want_cb and isinstance(c.func, ast.Attribute) and isinstance(c.func.value, ast.Name) and c.func.value.id == lv]
+
+                oc_l, _ = fd.run_paths(ctx.prog, f.module, cfg_l, {}, eff_l, start=head_l, stop=lambda n: n is head_l, loop_bound=1, for_iter=lambda n, e: True)
+                per_trip = {strip_ret(t).count('CALL') for t in oc_l}
+                leaves = any(isinstance(x, (ast.Break, ast.Return)) for x in ast.walk(lp))
+                obs.append(ob(R, f, lp, f'every listener of the snapshot gets exactly one `{want_cb}` call per datagram', per_trip == {1} and not leaves, f'calls per trip of the loop: {sorted(per_trip)}; the loop can be left early: {leaves}'))
     # inlined phases of the ingestion function: each phase loop iterates its own snapshot, and the snapshot of the completion
     # phase is taken after the first phase has run (a listener added or removed by a first-phase callback is honoured)
     an = ingest_anatomy(ctx)
